@@ -72,6 +72,9 @@ func genC11(g *Gen, tier string) *Program {
 					// full name as "c0" on its subscope "a" - one identity, two scopes
 					op.Name = pick(g, "a", "b", "c") + "." + op.Name
 				}
+				if (kind == "counter" || kind == "timer") && g.Bool(5) {
+					op.Name = "" // the empty name: the full name is the scope's prefix (and separator), or nothing at all
+				}
 				if kind == "gauge" {
 					op.Name = "g" + string(rune('A'+t))
 				}
